@@ -5,7 +5,9 @@
     labels, constants, mixed hiding; a single bounded term of coefficient one keeps its bound);
   * the verifier's combination loop produces the same commitments and subtracts the constants;
   * completeness of `check_combinations ∘ open_combinations`;
-  * the degree-bound policy (refusals of prover and verifier with the code's error).
+  * the degree-bound policy (refusals of prover and verifier with the code's error);
+  * a commitment whose shifted part does not go with its degree bound is refused with
+    `InvalidCommitment` by both loops (D26), before it can misalign the flat commitment vector.
 -/
 import PCV.Model.IPALC
 import PCV.Proofs.IPABatch
@@ -316,6 +318,9 @@ theorem lcStepP_ok (trips : List (Trip F)) (k : Nat) (acc acc' : LCAcc F) (term 
       rw [hl] at h
       simp only at h
       refine Or.inr ⟨l, t, rfl, hl, ?_⟩
+      by_cases h0 : t.1.bound.isSome ≠ t.2.2.comm.shifted.isSome
+      · rw [if_pos h0] at h; cases h
+      rw [if_neg h0] at h
       by_cases h1 : k = 1 ∧ t.1.bound.isSome = true
       · rw [if_pos h1] at h
         by_cases h2 : term.1 ≠ 1
@@ -496,6 +501,9 @@ theorem lcStepV_mirror (trips : List (Trip F)) (comms : List (LComm F)) (hag : L
     · rw [h1, h2]
     · rw [h1, h2]
       simp only [hbd]
+      by_cases c0 : t.1.bound.isSome ≠ t.2.2.comm.shifted.isSome
+      · rw [if_pos c0, if_pos c0]
+      rw [if_neg c0, if_neg c0]
       by_cases c1 : k = 1 ∧ t.1.bound.isSome = true
       · rw [if_pos c1, if_pos c1]
         by_cases c2 : term.1 ≠ 1
@@ -919,10 +927,35 @@ def BoundedTerm (trips : List (Trip F)) (t : F × LC.LCTerm) : Prop :=
 def Resolves (trips : List (Trip F)) (t : F × LC.LCTerm) : Prop :=
   ∀ l, t.2 = .poly l → ∃ x, Marlin.lookupLast (fun (t : Trip F) => t.1.label) l trips = some x
 
-/-- one step: a bounded polynomial in a combination of `k ≠ 1` terms is refused with
-`EquationHasDegreeBounds`; alone it must carry coefficient one (assertion) -/
+/-- the entries of `label_poly_map` are well formed: the commitment carries a shifted part exactly
+when the polynomial has a degree bound (what `open_combinations` tests before the degree-bound
+policy, refusing with `InvalidCommitment` otherwise) -/
+def TripsAligned (trips : List (Trip F)) : Prop :=
+  ∀ t ∈ trips, t.1.bound.isSome = t.2.2.comm.shifted.isSome
+
+theorem tripsAligned_of_ok (ck : CK F) (trips : List (Trip F)) (hok : TripsOK ck trips) :
+    TripsAligned trips := by
+  intro t ht
+  obtain ⟨⟨_, _, _, _, hsh, _, _⟩, _⟩ := hok t ht
+  rw [hsh]
+  cases t.1.bound <;> rfl
+
+/-- a term naming an entry whose commitment's shifted part does not go with the degree bound is
+refused with `InvalidCommitment`, before the degree-bound policy is looked at -/
+theorem lcStepP_malformed (trips : List (Trip F)) (k : Nat) (acc : LCAcc F) (coeff : F) (l : Label)
+    (x : Trip F) (hl : Marlin.lookupLast (fun (t : Trip F) => t.1.label) l trips = some x)
+    (hbad : x.1.bound.isSome ≠ x.2.2.comm.shifted.isSome) :
+    lcStepP trips k acc (coeff, .poly l) = .error .invalidCommitment := by
+  unfold lcStepP
+  simp only [hl]
+  rw [if_pos hbad]
+
+/-- one step: a bounded polynomial (with a well-formed commitment: without the shifted part the
+step ends in `InvalidCommitment`, `lcStepP_malformed`) in a combination of `k ≠ 1` terms is refused
+with `EquationHasDegreeBounds`; alone it must carry coefficient one (assertion) -/
 theorem lcStepP_policy (trips : List (Trip F)) (k : Nat) (acc : LCAcc F) (coeff : F) (l : Label)
     (x : Trip F) (hl : Marlin.lookupLast (fun (t : Trip F) => t.1.label) l trips = some x)
+    (hal : x.1.bound.isSome = x.2.2.comm.shifted.isSome)
     (hb : x.1.bound.isSome = true) :
     (k ≠ 1 → lcStepP trips k acc (coeff, .poly l) = .error .equationHasDegreeBounds) ∧
     (k = 1 → coeff ≠ 1 → lcStepP trips k acc (coeff, .poly l) = .error .abort) := by
@@ -930,11 +963,11 @@ theorem lcStepP_policy (trips : List (Trip F)) (k : Nat) (acc : LCAcc F) (coeff 
   · intro hk
     unfold lcStepP
     simp only [hl]
-    rw [if_neg (by intro hx; exact hk hx.1), if_pos hb]
+    rw [if_neg (not_not.2 hal), if_neg (by intro hx; exact hk hx.1), if_pos hb]
   · intro hk hc
     unfold lcStepP
     simp only [hl]
-    rw [if_pos ⟨hk, hb⟩, if_pos hc]
+    rw [if_neg (not_not.2 hal), if_pos ⟨hk, hb⟩, if_pos hc]
 
 theorem lcStepP_unknown (trips : List (Trip F)) (k : Nat) (acc : LCAcc F) (coeff : F) (l : Label)
     (hl : Marlin.lookupLast (fun (t : Trip F) => t.1.label) l trips = none) :
@@ -942,8 +975,8 @@ theorem lcStepP_unknown (trips : List (Trip F)) (k : Nat) (acc : LCAcc F) (coeff
   unfold lcStepP; simp only [hl]
 
 /-- the term loop of a combination with `k ≠ 1` terms that names a bounded polynomial (all labels
-known) ends in `EquationHasDegreeBounds` -/
-theorem lcLoopP_mixed (trips : List (Trip F)) (k : Nat) (hk : k ≠ 1) :
+known, well-formed commitments) ends in `EquationHasDegreeBounds` -/
+theorem lcLoopP_mixed (trips : List (Trip F)) (hwf : TripsAligned trips) (k : Nat) (hk : k ≠ 1) :
     ∀ (ts : List (F × LC.LCTerm)) (acc : LCAcc F), (∀ t ∈ ts, Resolves trips t) →
       (∃ t ∈ ts, BoundedTerm trips t) →
       lcLoopP trips k acc ts = .error .equationHasDegreeBounds := by
@@ -965,14 +998,15 @@ theorem lcLoopP_mixed (trips : List (Trip F)) (k : Nat) (hk : k ≠ 1) :
       · exact ⟨t', ht', hb⟩
     | poly l =>
       obtain ⟨x, hl⟩ := hres t (by simp) l ht
+      have hal := hwf x (Marlin.lookupLast_mem _ l trips x hl).1
       by_cases hb : x.1.bound.isSome = true
       · have : t = (t.1, LC.LCTerm.poly l) := by rw [← ht]
-        rw [this, (lcStepP_policy trips k acc t.1 l x hl hb).1 hk]
+        rw [this, (lcStepP_policy trips k acc t.1 l x hl hal hb).1 hk]
       · have hstep : lcStepP trips k acc t = .ok (acc.addTerm t.1 x) := by
           unfold lcStepP
           rw [ht]
           simp only [hl]
-          rw [if_neg (by intro hx; exact hb hx.2), if_neg hb]
+          rw [if_neg (not_not.2 hal), if_neg (by intro hx; exact hb hx.2), if_neg hb]
         rw [hstep]
         simp only
         apply ih _ (fun t' ht' => hres t' (by simp [ht']))
@@ -988,9 +1022,10 @@ theorem lcLoopP_mixed (trips : List (Trip F)) (k : Nat) (hk : k ≠ 1) :
           exact absurd h3 hb
         · exact ⟨t', ht', hb'⟩
 
-/-- in-domain side conditions: labels known, a single bounded term has coefficient one — then the
-term loop answers or refuses with `EquationHasDegreeBounds`, nothing else -/
-theorem lcLoopP_outcomes (trips : List (Trip F)) (k : Nat) :
+/-- in-domain side conditions: labels known, well-formed commitments, a single bounded term has
+coefficient one — then the term loop answers or refuses with `EquationHasDegreeBounds`, nothing
+else -/
+theorem lcLoopP_outcomes (trips : List (Trip F)) (hwf : TripsAligned trips) (k : Nat) :
     ∀ (ts : List (F × LC.LCTerm)) (acc : LCAcc F), (∀ t ∈ ts, Resolves trips t) →
       (k = 1 → ∀ t ∈ ts, BoundedTerm trips t → t.1 = 1) →
       (∃ a, lcLoopP trips k acc ts = .ok a) ∨
@@ -1009,9 +1044,11 @@ theorem lcLoopP_outcomes (trips : List (Trip F)) (k : Nat) :
       rw [hstep]; exact hrest acc
     | poly l =>
       obtain ⟨x, hl⟩ := hres t (by simp) l ht
+      have hal := hwf x (Marlin.lookupLast_mem _ l trips x hl).1
       unfold lcStepP
       rw [ht]
       simp only [hl]
+      rw [if_neg (not_not.2 hal)]
       by_cases c1 : k = 1 ∧ x.1.bound.isSome = true
       · rw [if_pos c1]
         have : t.1 = 1 := hone c1.1 t (by simp) ⟨l, x, ht, hl, c1.2⟩
@@ -1031,7 +1068,7 @@ def LCDomain (trips : List (Trip F)) (lc : LC.LinComb F) : Prop :=
   (∀ t ∈ lc.terms, Resolves trips t) ∧
   (lc.terms.length = 1 → ∀ t ∈ lc.terms, BoundedTerm trips t → t.1 = 1)
 
-theorem combineAllP_mixed (trips : List (Trip F)) :
+theorem combineAllP_mixed (trips : List (Trip F)) (hwf : TripsAligned trips) :
     ∀ (lcs : List (LC.LinComb F)), (∀ lc ∈ lcs, LCDomain trips lc) → (∃ lc ∈ lcs, Mixes trips lc) →
       combineAllP trips lcs = .error .equationHasDegreeBounds := by
   intro lcs
@@ -1041,29 +1078,33 @@ theorem combineAllP_mixed (trips : List (Trip F)) :
     intro hdom hex
     simp only [combineAllP, combineOneP]
     by_cases hm : Mixes trips lc
-    · rw [lcLoopP_mixed trips _ hm.1 lc.terms _ (hdom lc (by simp)).1 hm.2]
+    · rw [lcLoopP_mixed trips hwf _ hm.1 lc.terms _ (hdom lc (by simp)).1 hm.2]
     · have htail : ∃ lc' ∈ lcs, Mixes trips lc' := by
         obtain ⟨lc', h1, h2⟩ := hex
         rcases List.mem_cons.1 h1 with rfl | h1
         · exact absurd h2 hm
         · exact ⟨lc', h1, h2⟩
       have hrec := ih (fun x hx => hdom x (by simp [hx])) htail
-      rcases lcLoopP_outcomes trips lc.terms.length lc.terms (LCAcc.init lc.label)
+      rcases lcLoopP_outcomes trips hwf lc.terms.length lc.terms (LCAcc.init lc.label)
           (hdom lc (by simp)).1 (hdom lc (by simp)).2 with ⟨a, ha⟩ | he
       · rw [ha]; simp only; rw [hrec]
       · rw [he]
 
 /-- **Refusal of mixtures, prover**: labels known, single bounded terms with coefficient one, and
 some combination mixes a degree-bounded polynomial with other terms (constants count) ⇒
-`open_combinations` ends in `EquationHasDegreeBounds` -/
+`open_combinations` ends in `EquationHasDegreeBounds`.  `hwf` (every commitment has a shifted part
+exactly when its polynomial has a bound) is needed since D26: a malformed entry named before the
+mixture — or by the bounded term itself — ends the call in `InvalidCommitment` instead
+(`openCombinations_malformed`). -/
 theorem openCombinations_mixed (ck : CK F) (lcs : List (LC.LinComb F)) (polys : List (LPoly F))
     (comms : List (LComm F)) (sts : List (Rand F)) (qs : List (Query F)) (ξs ros : List F)
     (rng : Bool) (draws : List F)
+    (hwf : TripsAligned (polys.zip (sts.zip comms)))
     (hdom : ∀ lc ∈ lcs, LCDomain (polys.zip (sts.zip comms)) lc)
     (hex : ∃ lc ∈ lcs, Mixes (polys.zip (sts.zip comms)) lc) :
     openCombinations ck lcs polys comms sts qs ξs ros rng draws = .error .equationHasDegreeBounds := by
   unfold openCombinations
-  rw [combineAllP_mixed _ lcs hdom hex]
+  rw [combineAllP_mixed _ hwf lcs hdom hex]
 
 /-- **Refusal of mixtures, verifier** (the commitments are the honest ones of the polynomials) -/
 theorem checkCombinations_mixed (ck vk : CK F) (lcs : List (LC.LinComb F)) (polys : List (LPoly F))
@@ -1075,7 +1116,7 @@ theorem checkCombinations_mixed (ck vk : CK F) (lcs : List (LC.LinComb F)) (poly
     checkCombinations vk lcs comms qs evals πs ξs ros rs = .error .equationHasDegreeBounds := by
   unfold checkCombinations
   rw [combineAllV_mirror _ comms (lookupAgree_of_all ck polys comms sts hall hnf),
-    combineAllP_mixed _ lcs hdom hex]
+    combineAllP_mixed _ (tripsAligned_of_ok ck _ (tripsOK_of_all ck polys comms sts hall hnf)) lcs hdom hex]
 
 /-! ### the verifier's loop, factored: commitments on one side, claimed values on the other -/
 
@@ -1102,8 +1143,10 @@ theorem lcStepV_factor (comms : List (LComm F)) (k : Nat) (a : LCAccV F) (e : Li
     | some c =>
       simp only
       split
-      · split <;> rfl
-      · split <;> rfl
+      · rfl
+      · split
+        · split <;> rfl
+        · split <;> rfl
 
 theorem stepAccV_label (comms : List (LComm F)) (k : Nat) (a a' : LCAccV F) (t : F × LC.LCTerm)
     (h : stepAccV comms k a t = .ok a') : a'.label = a.label := by
@@ -1118,6 +1161,9 @@ theorem stepAccV_label (comms : List (LComm F)) (k : Nat) (a a' : LCAccV F) (t :
     | some c =>
       rw [hl] at h
       simp only at h
+      by_cases c0 : c.bound.isSome ≠ c.comm.shifted.isSome
+      · rw [if_pos c0] at h; cases h
+      rw [if_neg c0] at h
       by_cases c1 : k = 1 ∧ c.bound.isSome = true
       · rw [if_pos c1] at h
         by_cases c2 : t.1 ≠ 1
@@ -1332,6 +1378,9 @@ theorem stepAccV_shiftComm (comms : List (LComm F)) (k : Nat) (a : LCAccV F) (e 
     | none => rfl
     | some c =>
       simp only
+      by_cases c0 : c.bound.isSome ≠ c.comm.shifted.isSome
+      · rw [if_pos c0, if_pos c0]
+      rw [if_neg c0, if_neg c0]
       by_cases c1 : k = 1 ∧ c.bound.isSome = true
       · rw [if_pos c1, if_pos c1]
         by_cases c2 : t.1 ≠ 1
@@ -1379,7 +1428,8 @@ theorem loopAccV_coeff (comms : List (LComm F)) (k : Nat) (m : Label) (cm : LCom
     have hstep : ∀ (x : F), stepAccV comms k a (x, .poly m) = .ok (a.addTerm x cm) := by
       intro x
       unfold stepAccV lcStepV
-      simp only [hm, hb, Option.isSome_none, Bool.false_eq_true, and_false, if_false]
+      simp only [hm, hb, hs, Option.isSome_none, ne_eq, not_true_eq_false, Bool.false_eq_true,
+        and_false, if_false]
     simp only [List.nil_append, loopAccV, hstep]
     have e : a.addTerm (c + δ) cm = (a.addTerm c cm).shiftComm (cm.comm.comm * δ) := by
       simp only [LCAccV.addTerm, LCAccV.shiftComm, hs, combineShiftedComm]
@@ -1579,6 +1629,258 @@ theorem lc_reduction (ck : CK F) (polys : List (LPoly F)) (comms : List (LComm F
           simp only [Option.map_some]
           rw [(combineOneP_good ck _ hok lc a' h3).2.2 g.2.1]
           congr 1; ring
+
+/-! ### a commitment whose shifted part does not go with its degree bound (D26)
+
+A commitment WITHOUT degree bound that carries `shifted_comm = Some(_)` (or a bounded one without)
+used to pass the term loop: the loop pushed a second element on the flat vector while
+`construct_labeled_commitments` reads one element back per unbounded combination, so every later
+combination was paired with the wrong element.  Both loops now refuse the term with
+`InvalidCommitment`, after the label lookup and before the degree-bound policy. -/
+
+/-- the verifier's step on a term naming a malformed commitment -/
+theorem lcStepV_malformed (comms : List (LComm F)) (k : Nat) (st : LCAccV F × List ((Label × F) × F))
+    (coeff : F) (l : Label) (c : LComm F)
+    (hl : Marlin.lookupLast (fun (c : LComm F) => c.label) l comms = some c)
+    (hbad : c.bound.isSome ≠ c.comm.shifted.isSome) :
+    lcStepV comms k st (coeff, .poly l) = .error .invalidCommitment := by
+  unfold lcStepV
+  simp only [hl]
+  rw [if_pos hbad]
+
+theorem lcLoopP_append (trips : List (Trip F)) (k : Nat) (ts : List (F × LC.LCTerm)) :
+    ∀ (t1 : List (F × LC.LCTerm)) (acc : LCAcc F),
+      lcLoopP trips k acc (t1 ++ ts)
+        = match lcLoopP trips k acc t1 with
+          | .error e => .error e
+          | .ok a => lcLoopP trips k a ts := by
+  intro t1
+  induction t1 with
+  | nil => intro acc; rfl
+  | cons t t1 ih =>
+    intro acc
+    simp only [List.cons_append, lcLoopP]
+    cases lcStepP trips k acc t with
+    | error e => rfl
+    | ok a => exact ih a
+
+theorem lcLoopV_append (comms : List (LComm F)) (k : Nat) (ts : List (F × LC.LCTerm)) :
+    ∀ (t1 : List (F × LC.LCTerm)) (st : LCAccV F × List ((Label × F) × F)),
+      lcLoopV comms k st (t1 ++ ts)
+        = match lcLoopV comms k st t1 with
+          | .error e => .error e
+          | .ok st' => lcLoopV comms k st' ts := by
+  intro t1
+  induction t1 with
+  | nil => intro st; rfl
+  | cons t t1 ih =>
+    intro st
+    simp only [List.cons_append, lcLoopV]
+    cases lcStepV comms k st t with
+    | error e => rfl
+    | ok st' => exact ih st'
+
+/-- the combination loop of the prover stops at the first combination that is refused -/
+theorem combineAllP_stops (trips : List (Trip F)) (lc : LC.LinComb F) (post : List (LC.LinComb F))
+    (e : Err) (he : combineOneP trips lc = .error e) :
+    ∀ (pre : List (LC.LinComb F)) (as : List (LCAcc F)), combineAllP trips pre = .ok as →
+      combineAllP trips (pre ++ lc :: post) = .error e := by
+  intro pre
+  induction pre with
+  | nil => intro as _; simp only [List.nil_append, combineAllP, he]
+  | cons x pre ih =>
+    intro as h
+    simp only [combineAllP] at h
+    split at h
+    · cases h
+    · rename_i a ha
+      split at h
+      · cases h
+      · rename_i as' has
+        simp only [List.cons_append, combineAllP, ha, ih as' has]
+
+/-- the combination loop of the verifier stops at the first combination that is refused -/
+theorem combineAllV_stops (comms : List (LComm F)) (lc : LC.LinComb F) (post : List (LC.LinComb F))
+    (e : Err) :
+    ∀ (pre : List (LC.LinComb F)) (evals : List ((Label × F) × F)) (as : List (LCAccV F))
+      (evals' : List ((Label × F) × F)), combineAllV comms pre evals = .ok (as, evals') →
+      lcLoopV comms lc.terms.length (LCAccV.init lc.label, evals') lc.terms = .error e →
+      combineAllV comms (pre ++ lc :: post) evals = .error e := by
+  intro pre
+  induction pre with
+  | nil =>
+    intro evals as evals' h he
+    simp only [combineAllV] at h
+    injection h with h; injection h with _ h2
+    subst h2
+    simp only [List.nil_append, combineAllV, he]
+  | cons x pre ih =>
+    intro evals as evals' h he
+    simp only [combineAllV] at h
+    split at h
+    · cases h
+    · rename_i a ev1 ha
+      split at h
+      · cases h
+      · rename_i as' ev2 has
+        injection h with h; injection h with _ h2
+        subst h2
+        simp only [List.cons_append, combineAllV, ha, ih ev1 as' ev2 has he]
+
+/-- **`open_combinations` refuses a malformed commitment.**  The combinations `pre` pass, the terms
+`t1` of the next combination pass, and the next term names an entry whose commitment has a shifted
+part without a degree bound on the polynomial (or the reverse): the call ends in
+`InvalidCommitment` (whatever follows, whatever the query set and the oracles are). -/
+theorem openCombinations_malformed (ck : CK F) (polys : List (LPoly F)) (comms : List (LComm F))
+    (sts : List (Rand F)) (pre post : List (LC.LinComb F)) (l : Label) (t1 t2 : List (F × LC.LCTerm))
+    (coeff : F) (m : Label) (x : Trip F)
+    (hm : Marlin.lookupLast (fun (t : Trip F) => t.1.label) m (polys.zip (sts.zip comms)) = some x)
+    (hbad : x.1.bound.isSome ≠ x.2.2.comm.shifted.isSome)
+    (as : List (LCAcc F)) (hpre : combineAllP (polys.zip (sts.zip comms)) pre = .ok as)
+    (a : LCAcc F)
+    (ht1 : lcLoopP (polys.zip (sts.zip comms)) (t1 ++ (coeff, .poly m) :: t2).length (LCAcc.init l) t1 = .ok a)
+    (qs : List (Query F)) (ξs ros : List F) (rng : Bool) (draws : List F) :
+    openCombinations ck (pre ++ ⟨l, t1 ++ (coeff, .poly m) :: t2⟩ :: post) polys comms sts qs ξs ros rng draws
+      = .error .invalidCommitment := by
+  unfold openCombinations
+  rw [combineAllP_stops _ ⟨l, t1 ++ (coeff, .poly m) :: t2⟩ post .invalidCommitment _ pre as hpre]
+  unfold combineOneP
+  simp only
+  rw [lcLoopP_append, ht1]
+  simp only [lcLoopP, lcStepP_malformed _ _ a coeff m x hm hbad]
+
+/-- **`check_combinations` refuses a malformed commitment.**  The combinations `pre` pass, the terms
+`t1` of the next combination pass, and the next term names a commitment whose shifted part does not
+go with its degree bound: the call ends in `InvalidCommitment` — no claimed value is examined. -/
+theorem checkCombinations_malformed (vk : VK F) (comms : List (LComm F))
+    (pre post : List (LC.LinComb F)) (l : Label) (t1 t2 : List (F × LC.LCTerm))
+    (coeff : F) (m : Label) (cm : LComm F)
+    (hm : Marlin.lookupLast (fun (c : LComm F) => c.label) m comms = some cm)
+    (hbad : cm.bound.isSome ≠ cm.comm.shifted.isSome)
+    (qs : List (Query F)) (evals : List ((Label × F) × F)) (πs : List (Proof F)) (ξs ros rs : List F)
+    (as : List (LCAccV F)) (evals' : List ((Label × F) × F))
+    (hpre : combineAllV comms pre evals = .ok (as, evals'))
+    (st : LCAccV F × List ((Label × F) × F))
+    (ht1 : lcLoopV comms (t1 ++ (coeff, .poly m) :: t2).length (LCAccV.init l, evals') t1 = .ok st) :
+    checkCombinations vk (pre ++ ⟨l, t1 ++ (coeff, .poly m) :: t2⟩ :: post) comms qs evals πs ξs ros rs
+      = .error .invalidCommitment := by
+  unfold checkCombinations
+  rw [combineAllV_stops comms ⟨l, t1 ++ (coeff, .poly m) :: t2⟩ post .invalidCommitment pre evals as
+    evals' hpre]
+  simp only
+  rw [lcLoopV_append, ht1]
+  simp only [lcLoopV, lcStepV_malformed comms _ st coeff m cm hm hbad]
+
+/-- a term naming a malformed entry of `label_poly_map` -/
+def MalformedTermP (trips : List (Trip F)) (t : F × LC.LCTerm) : Prop :=
+  ∃ l x, t.2 = .poly l ∧ Marlin.lookupLast (fun (t : Trip F) => t.1.label) l trips = some x ∧
+    x.1.bound.isSome ≠ x.2.2.comm.shifted.isSome
+
+/-- a term naming a malformed commitment -/
+def MalformedTermV (comms : List (LComm F)) (t : F × LC.LCTerm) : Prop :=
+  ∃ l c, t.2 = .poly l ∧ Marlin.lookupLast (fun (c : LComm F) => c.label) l comms = some c ∧
+    c.bound.isSome ≠ c.comm.shifted.isSome
+
+theorem lcLoopP_malformed_err (trips : List (Trip F)) (k : Nat) :
+    ∀ (ts : List (F × LC.LCTerm)) (acc : LCAcc F), (∃ t ∈ ts, MalformedTermP trips t) →
+      ∃ e, lcLoopP trips k acc ts = .error e := by
+  intro ts
+  induction ts with
+  | nil => intro acc ⟨t, ht, _⟩; simp at ht
+  | cons t ts ih =>
+    intro acc hex
+    simp only [lcLoopP]
+    cases hs : lcStepP trips k acc t with
+    | error e => exact ⟨e, rfl⟩
+    | ok acc' =>
+      simp only
+      apply ih
+      obtain ⟨t', ht', hb⟩ := hex
+      rcases List.mem_cons.1 ht' with rfl | ht'
+      · obtain ⟨l, x, h1, h2, h3⟩ := hb
+        have : t' = (t'.1, LC.LCTerm.poly l) := by rw [← h1]
+        rw [this, lcStepP_malformed trips k acc t'.1 l x h2 h3] at hs
+        cases hs
+      · exact ⟨t', ht', hb⟩
+
+theorem lcLoopV_malformed_err (comms : List (LComm F)) (k : Nat) :
+    ∀ (ts : List (F × LC.LCTerm)) (st : LCAccV F × List ((Label × F) × F)),
+      (∃ t ∈ ts, MalformedTermV comms t) → ∃ e, lcLoopV comms k st ts = .error e := by
+  intro ts
+  induction ts with
+  | nil => intro st ⟨t, ht, _⟩; simp at ht
+  | cons t ts ih =>
+    intro st hex
+    simp only [lcLoopV]
+    cases hs : lcStepV comms k st t with
+    | error e => exact ⟨e, rfl⟩
+    | ok st' =>
+      simp only
+      apply ih
+      obtain ⟨t', ht', hb⟩ := hex
+      rcases List.mem_cons.1 ht' with rfl | ht'
+      · obtain ⟨l, c, h1, h2, h3⟩ := hb
+        have : t' = (t'.1, LC.LCTerm.poly l) := by rw [← h1]
+        rw [this, lcStepV_malformed comms k st t'.1 l c h2 h3] at hs
+        cases hs
+      · exact ⟨t', ht', hb⟩
+
+/-- **`open_combinations` never answers over a malformed commitment**: some term of some combination
+names a malformed entry ⇒ the call ends in an error (the first refusal met in the code's order) -/
+theorem openCombinations_malformed_err (ck : CK F) (lcs : List (LC.LinComb F)) (polys : List (LPoly F))
+    (comms : List (LComm F)) (sts : List (Rand F)) (qs : List (Query F)) (ξs ros : List F)
+    (rng : Bool) (draws : List F)
+    (hex : ∃ lc ∈ lcs, ∃ t ∈ lc.terms, MalformedTermP (polys.zip (sts.zip comms)) t) :
+    ∃ e, openCombinations ck lcs polys comms sts qs ξs ros rng draws = .error e := by
+  have : ∃ e, combineAllP (polys.zip (sts.zip comms)) lcs = .error e := by
+    induction lcs with
+    | nil => obtain ⟨lc, hlc, _⟩ := hex; simp at hlc
+    | cons lc lcs ih =>
+      simp only [combineAllP, combineOneP]
+      cases h1 : lcLoopP (polys.zip (sts.zip comms)) lc.terms.length (LCAcc.init lc.label) lc.terms with
+      | error e => exact ⟨e, rfl⟩
+      | ok a =>
+        obtain ⟨lc', hlc', hb⟩ := hex
+        rcases List.mem_cons.1 hlc' with rfl | hlc'
+        · obtain ⟨e, he⟩ := lcLoopP_malformed_err _ lc'.terms.length lc'.terms (LCAcc.init lc'.label) hb
+          rw [he] at h1; cases h1
+        · obtain ⟨e, he⟩ := ih ⟨lc', hlc', hb⟩
+          exact ⟨e, by simp only [he]⟩
+  obtain ⟨e, he⟩ := this
+  exact ⟨e, by unfold openCombinations; rw [he]⟩
+
+/-- **`check_combinations` never answers over a malformed commitment**: some term of some combination
+names a commitment whose shifted part does not go with its degree bound ⇒ the call ends in an
+error, whatever values are claimed and whatever proofs are presented -/
+theorem checkCombinations_malformed_err (vk : VK F) (lcs : List (LC.LinComb F)) (comms : List (LComm F))
+    (qs : List (Query F)) (evals : List ((Label × F) × F)) (πs : List (Proof F)) (ξs ros rs : List F)
+    (hex : ∃ lc ∈ lcs, ∃ t ∈ lc.terms, MalformedTermV comms t) :
+    ∃ e, checkCombinations vk lcs comms qs evals πs ξs ros rs = .error e := by
+  have : ∃ e, combineAllV comms lcs evals = .error e := by
+    induction lcs generalizing evals with
+    | nil => obtain ⟨lc, hlc, _⟩ := hex; simp at hlc
+    | cons lc lcs ih =>
+      simp only [combineAllV]
+      cases h1 : lcLoopV comms lc.terms.length (LCAccV.init lc.label, evals) lc.terms with
+      | error e => exact ⟨e, rfl⟩
+      | ok st =>
+        obtain ⟨lc', hlc', hb⟩ := hex
+        rcases List.mem_cons.1 hlc' with rfl | hlc'
+        · obtain ⟨e, he⟩ := lcLoopV_malformed_err comms lc'.terms.length lc'.terms
+            (LCAccV.init lc'.label, evals) hb
+          rw [he] at h1; cases h1
+        · obtain ⟨e, he⟩ := ih st.2 ⟨lc', hlc', hb⟩
+          exact ⟨e, by simp only [he]⟩
+  obtain ⟨e, he⟩ := this
+  exact ⟨e, by unfold checkCombinations; rw [he]⟩
+
+/-- **what the guard prevents**: in the flat vector a combination without bound that carries a
+stray shifted element `s` occupies two positions, `construct_labeled_commitments` reads one back:
+the next unbounded combination is paired with `s` instead of its own commitment `c2` -/
+theorem construct_misaligned (l1 l2 : Label) (c1 s c2 : F) :
+    constructLabeledCommitments (lcInfoV [⟨l1, none, c1, some s⟩, ⟨l2, none, c2, none⟩])
+        (lcFlatV [(⟨l1, none, c1, some s⟩ : LCAccV F), ⟨l2, none, c2, none⟩])
+      = .ok [⟨l1, ⟨c1, none⟩, none⟩, ⟨l2, ⟨s, none⟩, none⟩] := rfl
 
 end IPA
 end PCV
